@@ -57,9 +57,11 @@ class CacheLock:
                                      f"Threshold is {self.time_threshold}")
 
     def __exit__(self, exc_type, exc_value, traceback):
-        if self.write_time:
-            _write_last_cached_time(self.current_timestamp, self.cache_folder)
-        self.cache_lock.release()
+        try:
+            if self.write_time:
+                _write_last_cached_time(self.current_timestamp, self.cache_folder)
+        finally:
+            self.cache_lock.release()
 
 
 def _read_last_cached_time(cache_folder):
